@@ -162,6 +162,7 @@ def extra(defs, lab, ab, src, label_max, name_max, lim, LIM):
     text_items(defs, lab, src)
     message_zonefile_items(defs, ab, lim, LIM)
     slicing_items(defs, ab)
+    uncertain_items(defs, lim, LIM)
 
 
 def message_zonefile_items(defs, ab, lim, LIM):
@@ -241,6 +242,29 @@ def slicing_items(defs, ab):
     b = fn_body(rel, "strip_suffix", after="fn check_bounds")
     one(r"^\s*if self\.ends_with\(base\) \{\s*let idx = self\.0\.as_ref\(\)\.len\(\) - usize::from\(base\.compose_len\(\)\);\s*self\.0\.truncate\(idx\);\s*Ok\(\(\)\)\s*\} else \{", b, "RelativeName::strip_suffix")
     boo("slicing_shapes_pinned", True)
+
+
+def uncertain_items(defs, lim, LIM):
+    """UncertainName::is_slice_absolute (from_octets / from_slice) and
+    Chain::new_uncertain"""
+    def nat(name, v): defs.append((name, "nat", "%d%%nat" % v))
+    def boo(name, v): defs.append((name, "bool", "true" if v else "false"))
+    def ge(op): return op == ">="
+    un = strip_comments(read("src/base/name/uncertain.rs"))
+    b = fn_body(un, "is_slice_absolute")
+    m = one(r"^\s*(?:let len = slice\.len\(\);\s*if len|if slice\.len\(\)) (>=|>) " + LIM + r" \{\s*return Err\(UncertainDnameErrorEnum::LongName\.into\(\)\);\s*\}\s*loop \{\s*let \(label, tail\) = Label::split_from\(slice\)\?;\s*"
+            r"if label\.is_root\(\) \{\s*if tail\.is_empty\(\) \{\s*return Ok\(true\);\s*\} else \{\s*return Err\(UncertainDnameErrorEnum::TrailingData\.into\(\)\);\s*\}\s*\}\s*"
+            r"if tail\.is_empty\(\) \{\s*(?:if len (>=|>) " + LIM + r"(?: - (\d+))? \{\s*return Err\(UncertainDnameErrorEnum::LongName\.into\(\)\);\s*\}\s*)?return Ok\(false\);\s*\}\s*slice = tail;\s*\}\s*$", b, "UncertainName::is_slice_absolute")
+    boo("uncertain_ge", ge(m.group(1))); nat("uncertain_lim", lim(m.group(2)))
+    if m.group(3):
+        boo("uncertain_rel_checked", True); boo("uncertain_rel_ge", ge(m.group(3)))
+        nat("uncertain_rel_lim", lim(m.group(4)) - (int(m.group(5)) if m.group(5) else 0))
+    else:
+        boo("uncertain_rel_checked", False); boo("uncertain_rel_ge", False); nat("uncertain_rel_lim", 0)
+    ch = strip_comments(read("src/base/name/chain.rs"))
+    b = fn_body(ch, "new_uncertain")
+    m = one(r"^\s*if let UncertainName::Relative\(ref name\) = left \{\s*if usize::from\(name\.compose_len\(\) \+ right\.compose_len\(\)\)\s*(>=|>) " + LIM + r"\s*\{\s*return Err\(LongChainError\(\(\)\)\);\s*\}\s*\}\s*Ok\(Chain \{ left, right \}\)\s*$", b, "Chain::new_uncertain")
+    boo("chain_unc_ge", ge(m.group(1))); nat("chain_unc_lim", lim(m.group(2)))
 
 
 def byte_lit(t):
